@@ -202,8 +202,8 @@ pub fn def() -> PropertyDef {
                (decreasing-DTS writes among flush/query ops). Non-trivial = a rejected call later followed by an accepted call of the same track",
         assumptions: &["the relation is purely differential (implementation vs itself on H and H'), no model of the contract is needed"],
         subs: vec![
-            Box::new(PSub { name: "progressive", quick: 5000, thorough: 200_000, strat, eval }),
-            Box::new(PSub { name: "fragmented", quick: 3000, thorough: 100_000, strat: strat_frag, eval: eval_frag }),
+            Box::new(PSub { name: "progressive", quick: 40000, thorough: 1200000, strat, eval }),
+            Box::new(PSub { name: "fragmented", quick: 20000, thorough: 600000, strat: strat_frag, eval: eval_frag }),
         ],
     }
 }
